@@ -27,6 +27,15 @@ def make_copy(name):
     return base, dst
 
 
+def apply_sed(dst, seds):
+    for (rel, old, new) in seds:
+        p = os.path.join(dst, rel)
+        s = open(p).read()
+        if old not in s:
+            raise ValueError("sed pattern %r not found in %s" % (old, rel))
+        open(p, "w").write(s.replace(old, new))
+
+
 def apply_edits(dst, edits):
     for (rel, old, new) in edits:
         p = os.path.join(dst, rel)
@@ -58,6 +67,7 @@ def main():
         try:
             try:
                 apply_edits(dst, m["edits"])
+                apply_sed(dst, m.get("sed", []))
             except ValueError as e:
                 bad += 1
                 print("STALE       %-40s %s" % (m["name"], e))
@@ -66,10 +76,15 @@ def main():
                 props = m.get("props") or mutants.ALL_PROPS
                 for prop in props:
                     rc, out = run_check(prop, dst)
+                    if "does not build" in out:
+                        bad += 1
+                        print("NOBUILD     %-40s %s" % (m["name"], prop))
+                        print(out[-800:])
+                        break
                     if rc != 0:
                         bad += 1
                         print("FALSE-ALARM %-40s %s" % (m["name"], prop))
-                        print("\n".join("      " + l for l in out.splitlines() if "VIOLATION" in l or l.startswith("  ")))
+                        print("\n".join("      " + l for l in out.splitlines() if "FAIL" in l)[:1500])
                     elif a.v:
                         print("silent      %-40s %s" % (m["name"], prop))
                 if a.v or True:
